@@ -3,6 +3,7 @@ package main
 import (
 	"fmt"
 	"go/types"
+	"os"
 	"strings"
 
 	"golang.org/x/tools/go/ssa"
@@ -19,14 +20,69 @@ type FuncResult struct {
 	Mode        string
 }
 
+// verifyFunc generates the obligations of fn. Automatic loop-invariant
+// candidates are pruned first (Houdini): candidates whose own entry/keep
+// obligations are not discharged are switched off and generation is repeated,
+// so every candidate that is assumed in the final run is also proved in it.
 func (P *Prog) verifyFunc(fn *ssa.Function, thorough bool) (res *FuncResult) {
+	return P.verifyFuncMode(fn, thorough, "")
+}
+
+func (P *Prog) verifyFuncMode(fn *ssa.Function, thorough bool, mode string) (res *FuncResult) {
+	off := map[string]bool{}
+	for iter := 0; iter < 5; iter++ {
+		res = P.verifyFuncOnce(fn, thorough, off, mode)
+		if res.Ex == nil || len(res.Ex.autoSeen) == 0 || res.Unsupported != "" || res.ContractErr != "" {
+			return res
+		}
+		var cand []*Obl
+		for _, o := range res.Obls {
+			if strings.Contains(o.Name, ":auto:") {
+				cand = append(cand, o)
+			}
+		}
+		if len(cand) == 0 {
+			return res
+		}
+		tmp, _ := os.MkdirTemp("", "govc-houdini-")
+		s := newSolver(tmp, 0, 3000, 8)
+		s.quickMs = 1500
+		s.fastOnly = true
+		vs := s.solveAll(res.Ex, cand)
+		os.RemoveAll(tmp)
+		changed := false
+		for _, v := range vs {
+			if v.Status != "unsat" {
+				// name: fn:kind:loopN:auto:cand#k
+				parts := strings.SplitN(v.Obl.Name, ":loop", 2)
+				c := "loop" + strings.SplitN(parts[1], "#", 2)[0]
+				if !off[c] {
+					off[c] = true
+					changed = true
+				}
+			}
+		}
+		if !changed {
+			return res
+		}
+	}
+	return res
+}
+
+func (P *Prog) verifyFuncOnce(fn *ssa.Function, thorough bool, autoOff map[string]bool, mode string) (res *FuncResult) {
 	key := P.keyOf[fn]
 	spec := P.specs.Funcs[key]
 	res = &FuncResult{Key: key, Fn: fn, Spec: spec, Mode: "bv"}
 	if spec != nil && spec.Mode == "int" {
 		res.Mode = "int"
 	}
-	ex := newExec(P, fn, spec, thorough)
+	ex := newExec(P, fn, spec, thorough, mode)
+	if ex.ar.intMode {
+		res.Mode = "int"
+	} else {
+		res.Mode = "bv"
+	}
+	ex.autoOff = autoOff
 	res.Ex = ex
 	defer func() {
 		if r := recover(); r != nil {
@@ -120,7 +176,7 @@ func (P *Prog) verifyFunc(fn *ssa.Function, thorough bool) (res *FuncResult) {
 			if cond == "true" {
 				return
 			}
-			o := &Obl{Name: shortKey(key) + ":" + kind + ":" + name + "#0", Kind: kind, Pos: ex.q.pos(), Reach: retReach, Cond: cond, Fn: key, Label: c.Label, Text: c.Src, Thor: c.Thor}
+			o := &Obl{Name: shortKey(key) + ":" + kind + ":" + name + "#0", Kind: kind, Pos: ex.q.pos(), Reach: retReach, Cond: cond, Fn: key, Label: c.Label, Text: c.Src, Thor: c.Thor, Mode: c.Mode}
 			ex.obls = append(ex.obls, o)
 		}
 		if spec != nil {
@@ -151,4 +207,77 @@ func shortKey(key string) string {
 	key = strings.TrimPrefix(key, lalPrefix+"pkg/")
 	key = strings.TrimPrefix(key, nazaPrefix+"pkg/")
 	return key
+}
+
+// solveFunc discharges the obligations of one function: first in the
+// function's primary encoding, then — for obligations that were neither
+// proved nor refuted by a quantifier-free model — in the other exact
+// encoding (DESIGN §2.3: both are exact semantics of the same program, so a
+// proof in either one is a proof).
+func (P *Prog) solveFunc(s *Solver, res *FuncResult, thorough bool, keep func(*Obl) bool) []*Verdict {
+	var obls []*Obl
+	for _, o := range res.Obls {
+		if keep == nil || keep(o) {
+			obls = append(obls, o)
+		}
+	}
+	if res.Ex == nil {
+		return nil
+	}
+	other := "int"
+	if res.Mode == "int" {
+		other = "bv"
+	}
+	// clauses with a mode hint for the other encoding go there directly
+	var first []*Obl
+	vs := make([]*Verdict, len(obls))
+	var open []*Verdict
+	pos := map[*Obl]int{}
+	for i, o := range obls {
+		pos[o] = i
+		if o.Mode == other && !o.Cover {
+			vs[i] = &Verdict{Obl: o, Status: "deferred", Solver: "-"}
+			open = append(open, vs[i])
+		} else {
+			first = append(first, o)
+		}
+	}
+	for _, v := range s.solveAll(res.Ex, first) {
+		vs[pos[v.Obl]] = v
+		if v.Obl.Cover {
+			continue
+		}
+		if v.Status == "timeout" || v.Status == "unknown" || v.Status == "error" {
+			open = append(open, v)
+		}
+	}
+	if len(open) == 0 || res.Fn == nil {
+		return vs
+	}
+	res2 := P.verifyFuncMode(res.Fn, thorough, other)
+	if res2.Ex == nil || res2.Unsupported != "" || res2.ContractErr != "" {
+		return vs
+	}
+	byName := map[string]*Obl{}
+	for _, o := range res2.Obls {
+		byName[o.Name] = o
+	}
+	var obls2 []*Obl
+	var idx []*Verdict
+	for _, v := range open {
+		if o2, ok := byName[v.Obl.Name]; ok {
+			obls2 = append(obls2, o2)
+			idx = append(idx, v)
+		}
+	}
+	vs2 := s.solveAll(res2.Ex, obls2)
+	for i, v2 := range vs2 {
+		if v2.Status == "unsat" || idx[i].Status == "deferred" {
+			idx[i].Status = v2.Status
+			idx[i].Solver = v2.Solver + "[" + other + "]"
+			idx[i].Seconds += v2.Seconds
+			idx[i].Output = v2.Output
+		}
+	}
+	return vs
 }
